@@ -1355,10 +1355,31 @@ class RuleDefault(_BaseRule):
         # or one should be a subclass of the other.
         if (self.name == other.name and
                 str(self.check) == str(other.check) and
+                _same_shape(self.check, other.check) and
                 (isinstance(self, other.__class__) or
                  isinstance(other, self.__class__))):
             return True
         return False
+
+
+def _same_shape(check, other):
+    """Whether two parsed checks with one string form are the same tree.
+
+    The list-of-lists syntax takes each element as a single check, so an
+    element such as "(role:a or role:b)" is one check of kind "(role" that
+    prints exactly like the compound rule it resembles.
+    """
+    if type(check) is not type(other):
+        return False
+    if isinstance(check, (_checks.AndCheck, _checks.OrCheck)):
+        return (len(check.rules) == len(other.rules) and
+                all(_same_shape(a, b)
+                    for a, b in zip(check.rules, other.rules)))
+    if isinstance(check, _checks.NotCheck):
+        return _same_shape(check.rule, other.rule)
+    if isinstance(check, _checks.Check):
+        return check.kind == other.kind and check.match == other.match
+    return True
 
 
 class DocumentedRuleDefault(RuleDefault):
